@@ -106,11 +106,12 @@ def r2(ctx):
     g = ctx.cfg(f)
     inv = call_nodes(g, lambda nm, c: nm == "self.invalidate")
     pinv = call_nodes(g, lambda nm, c: nm.endswith("pool._invalidate"))
+    names = {call_name(c) or "" for c in calls_in(f.node)}
+    ctx.require("self.invalidate" in names, "no self.invalidate() call in _handle_dbapi_exception")
+    ctx.require(any(n.endswith("pool._invalidate") for n in names), "no pool._invalidate() call in _handle_dbapi_exception")
     live = g.reachable([g.entry])
-    inv = [n for n in inv if n in live]
+    inv = [n for n in inv if n in live]      # (the normal-continuation copy of the finally is dead: the try always raises)
     pinv = [n for n in pinv if n in live]
-    ctx.require(inv, "no self.invalidate() call in _handle_dbapi_exception")
-    ctx.require(pinv, "no pool._invalidate() call in _handle_dbapi_exception")
     enter = [n for d, t, st in attr_stores(f.node) if d == "self._reentrant_error" and isinstance(st, ast.Assign) for n in g.nodes_for(st)]
     ctx.require(enter, "_handle_dbapi_exception no longer marks re-entrance before its try block")
     # (a) every exit of the guarded block invalidates when _is_disconnect
